@@ -873,6 +873,35 @@ pub fn run(tier: Tier) -> ! {
         }
     }
 
+    // (10) several groups of duplicates in one definition (ids and names, two and three groups,
+    //      pairs and triples): which duplicate is reported against which first definition, with
+    //      which suggested free id and in which order must not depend on the run
+    let mut groups: Vec<String> = Vec::new();
+    for ids in [["1", "1", "2", "2", "3"], ["1", "2", "1", "2", "2"], ["7", "7", "7", "0", "0"], ["1", "2", "3", "3", "1"], ["4294967295", "4294967295", "0", "0", "5"]] {
+        let [a, b, c, d, e] = ids;
+        groups.push(format!("struct S {{ a @ {a} = u8; b @ {b} = u8; c @ {c} = u8; d @ {d} = u8; e @ {e} = u8; }}"));
+        groups.push(format!("enum E {{ A @ {a}; B @ {b} = u8; C @ {c}; D @ {d}; E @ {e}; }}"));
+        groups.push(format!("service S {{ uuid = 6d0b2b1e-52f2-4a3c-8d2e-0a5c1f0e9b01; version = 1; fn a @ {a}; fn b @ {b}; fn c @ {c}; fn d @ {d}; fn e @ {e}; }}"));
+        groups.push(format!("service S {{ uuid = 6d0b2b1e-52f2-4a3c-8d2e-0a5c1f0e9b01; version = 1; event a @ {a}; event b @ {b}; event c @ {c}; event d @ {d}; event e @ {e}; }}"));
+        groups.push(format!("service S {{ uuid = 6d0b2b1e-52f2-4a3c-8d2e-0a5c1f0e9b01; version = 1; fn f @ 1 = struct {{ a @ {a} = u8; b @ {b} = u8; c @ {c} = u8; d @ {d} = u8; e @ {e} = u8; }} event e @ 1 = enum {{ A @ {a}; B @ {b}; C @ {c}; D @ {d}; E @ {e}; }} }}"));
+    }
+    for names in [["a", "a", "b", "b", "c"], ["a", "b", "a", "b", "b"], ["x", "y", "z", "z", "x"]] {
+        let [a, b, c, d, e] = names;
+        let up = |s: &str| s.to_uppercase();
+        groups.push(format!("struct S {{ {a} @ 1 = u8; {b} @ 2 = u8; {c} @ 3 = u8; {d} @ 4 = u8; {e} @ 5 = u8; }}"));
+        groups.push(format!("enum E {{ {} @ 1; {} @ 2; {} @ 3; {} @ 4; {} @ 5; }}", up(a), up(b), up(c), up(d), up(e)));
+        groups.push(format!("service S {{ uuid = 6d0b2b1e-52f2-4a3c-8d2e-0a5c1f0e9b01; version = 1; fn {a} @ 1; fn {b} @ 2; fn {c} @ 3; fn {d} @ 4; fn {e} @ 5; event {a} @ 1; event {b} @ 2; event {c} @ 3; event {d} @ 4; event {e} @ 5; }}"));
+        groups.push(format!("struct {} {{}}\nenum {} {{}}\nnewtype {} = u8;\nconst {} = u8(1);\nstruct {} {{}}\n", up(a), up(b), up(c), up(d), up(e)));
+        groups.push(format!("import {a};\nimport {b};\nimport {c};\nimport {d};\nimport {e};\nstruct S {{}}\n"));
+        groups.push(format!("#[rust(impl_copy, impl_copy, impl_clone, impl_clone)]\nstruct S {{ {a} @ 1 = u8; }}\n"));
+    }
+    let n_groups = groups.len() as u64;
+    for text in &groups {
+        for _ in 0..8 {
+            check_total(&cx, front::MAIN, text, Env::Resolvable, "duplicate-groups");
+        }
+    }
+
     let evals = cx.evals.load(Ordering::Relaxed);
     let distinct: usize = cx.nontrivial.iter().map(|m| m.lock().unwrap().len()).sum();
     if distinct < 1000 || cx.generated.load(Ordering::Relaxed) < 100 || cx.broken_links.load(Ordering::Relaxed) < 100 {
@@ -911,6 +940,7 @@ pub fn run(tier: Tier) -> ! {
         "type_graph_runs": n6 - n5,
         "newtype_graph_schemas": nt_graphs,
         "numeric_literal_schemas": numeric,
+        "duplicate_group_schemas_each_run_8_times_2": n_groups,
         "import_environments": ENVS.iter().map(|e| format!("{e:?}")).collect::<Vec<_>>(),
         "syntactically_valid": cx.syntax_ok.load(Ordering::Relaxed),
         "formatted": cx.formatted.load(Ordering::Relaxed),
